@@ -24,7 +24,8 @@ type c13Op struct {
 }
 
 type c13Case struct {
-	Kind string  `json:"kind"` // "hash" | "hist"
+	Kind string  `json:"kind"` // "hash" | "hist" | "gw"
+	Gw   []gwOp  `json:"gw"`
 	Name B       `json:"name"`
 	N    int64   `json:"n"`
 	ID   B       `json:"id"`
@@ -82,6 +83,9 @@ func runC13(raw json.RawMessage) interface{} {
 			return v
 		})
 		return map[string]interface{}{"srv": srv, "gw": gw}
+	}
+	if c.Kind == "gw" {
+		return runGw(c.Gw)
 	}
 	var rig *limRig
 	if c.Store == "k8s" {
